@@ -304,6 +304,11 @@ func (t *tr) composite(x *ast.CompositeLit) {
 // specForCall computes the specialisation requested by a call and the tags of
 // the actual receiver and arguments, per slot.
 func (t *tr) specForCall(fn *types.Func, recv ast.Expr, c *ast.CallExpr) (*spec, []tag) {
+	vec, tags := t.vecForCall(fn, recv, c)
+	return t.w.getSpec(fn, vec), tags
+}
+
+func (t *tr) vecForCall(fn *types.Func, recv ast.Expr, c *ast.CallExpr) ([]byte, []tag) {
 	sl := t.w.slots(fn)
 	sig := fn.Type().(*types.Signature)
 	tags := make([]tag, len(sl))
@@ -328,17 +333,12 @@ func (t *tr) specForCall(fn *types.Func, recv ast.Expr, c *ast.CallExpr) (*spec,
 		}
 	}
 	for i, s := range sl {
+		// a by-value argument is a (shallow) copy: the callee owns the copy,
+		// the caller's tag is kept so that a publication by the callee
+		// also ends the freshness of the caller's object
 		vec[i] = slotTag(s, tags[i])
-		if vec[i] != 'F' || s.byValue {
-			if tags[i].k == 'F' && (vec[i] != 'F' || s.byValue) {
-				// a copy, or an untracked container: the callee does not own it
-				if s.byValue {
-					tags[i] = tagS
-				}
-			}
-		}
 	}
-	return t.w.getSpec(fn, vec), tags
+	return vec, tags
 }
 
 // lockClass determines the class of the mutex designated by the receiver
@@ -499,8 +499,17 @@ func (t *tr) afterCall(sp *spec, tags []tag, fn *types.Func, c *ast.CallExpr) {
 		if tg.k != 'F' {
 			continue
 		}
-		if sp.state != 2 || (i < len(sp.publishes) && sp.publishes[i]) {
-			t.publish(tg.region) // recursion guard: publishes
+		pub := sp.publishes
+		if sp.state != 2 {
+			if sp != t.sp || t.probe {
+				t.publish(tg.region) // recursion guard: publishes
+				continue
+			}
+			sp.selfCalled = true
+			pub = sp.assumedPub
+		}
+		if i < len(pub) && pub[i] {
+			t.publish(tg.region)
 			continue
 		}
 		// fresh objects passed together may get linked by the callee
@@ -729,8 +738,7 @@ func (t *tr) goStmt(g *ast.GoStmt) {
 	}
 	t.expr(recv)
 	t.args(c)
-	sp0, tags := t.specForCall(fn, recv, c)
-	vec := append([]byte(nil), sp0.vec...)
+	vec, tags := t.vecForCall(fn, recv, c)
 	sl := t.w.slots(fn)
 	for i, tg := range tags {
 		if tg.k == 'F' {
